@@ -136,3 +136,76 @@ def policing(prog, chk, rule="policing-table"):
                            how="E2 return state over symbolic lists; specification evaluated on the comparisons the path decided")
     chk.floor(rule + "-rows", n_states, 60)
     chk.ob(rule, "all three outcomes are produced", outcomes >= {"420", "400", "none"}, body.loc(), detail=repr(outcomes))
+
+
+# ------------------------------------------------------------------------------------------------ lookups over the exposed attributes
+
+def lookups(prog, chk, rule="faithful-exposure"):
+    """Message::raw_attribute / has_attribute (and attribute::<T> through its generic body, when an instance exists) answer
+    from iter_attributes() and nothing else: with the iterator summarised as a short list of k attributes of symbolic
+    types, the answer is the first listed attribute whose type is the one asked for (None / false when there is none)."""
+    for fn in ("raw_attribute", "has_attribute"):
+        key = MSG + fn
+        body = prog.bodies.get(key)
+        if body is None:
+            chk.fail(rule, "Message::%s not found" % fn)
+            continue
+        arg = {body.locals[i]["name"]: i for i in range(1, body.arg_count + 1)}
+        n = 0
+        for k in (0, 1, 2):
+            tvars = [Lin.var("t%d" % i) for i in range(k)]
+            calls = []
+
+            def model_iter(c, tvars=tvars, calls=calls):
+                calls.append(1)
+                for i in range(len(tvars)):
+                    c.st.sys.add_range(Lin.var("plen%d" % i), 0, 65535)
+                return [(c.st, mk_listed([raw_attr(tv, i) for i, tv in enumerate(tvars)], "attrs"))]
+
+            def setup(run, st, tvars=tvars):
+                q = Lin.var("asked")
+                for v in tvars + [q]:
+                    st.sys.add_range(v, 0, 65535)
+                    st.cells["ghost:q:" + next(iter(v.t))] = Num(v)
+                st.cells[run.it.cell_of(run.fr, arg["atype"])] = Struct({0: Num(q)})
+            r = Run(prog, key, track_content=True, bool_vars=False, max_parts=4000, setup=setup, local_models={MSG + "iter_attributes": model_iter})
+            if r.error or not r.results:
+                chk.fail(rule, "Message::%s|analysis|%d attributes" % (fn, k), body.loc(), r.error or "no return state")
+                continue
+            q = Lin.var("asked")
+            for st, ret in r.results:
+                n += 1
+                first = None
+                undecided = False
+                for i, tv in enumerate(tvars):
+                    e_ = known_eq(st, Num(tv), Num(q))
+                    if e_ is True:
+                        first = i
+                        break
+                    if e_ is None:
+                        undecided = True
+                        break
+                problems = []
+                if undecided:
+                    problems.append("answers without deciding whether attribute %d has the type asked for" % i)
+                elif fn == "has_attribute":
+                    from rules.agent_e2 import bool_of
+                    ans = bool_of(st, ret)
+                    if ans is not (first is not None):
+                        problems.append("answers %r where the first match is %r" % (ret, first))
+                else:
+                    got = variant_of(prog, ret)
+                    if first is None:
+                        if got != "None":
+                            problems.append("answers %s although no exposed attribute has that type" % got)
+                    else:
+                        raw = ret.v[1].get(0) if isinstance(ret, Enum) and 1 in ret.v else None
+                        t_ = raw.get(0).get(0).get(0) if isinstance(raw, Struct) and isinstance(raw.get(0), Struct) and isinstance(raw.get(0).get(0), Struct) else None
+                        l_ = raw.get(0).get(1) if isinstance(raw, Struct) and isinstance(raw.get(0), Struct) else None
+                        if got != "Some" or not (isinstance(t_, Num) and st.sys.entails_eq(t_.e - tvars[first])) or not (isinstance(l_, Num) and st.sys.entails_eq(l_.e - Lin.var("plen%d" % first))):
+                            problems.append("does not answer with the first exposed attribute of that type (attribute %d)" % first)
+                if len(calls) < 1:
+                    problems.append("does not consult iter_attributes()")
+                chk.ob(rule, "Message::%s|%d exposed|%s" % (fn, k, "first match %s" % first if first is not None else "no match"), not problems, body.loc(),
+                       detail="; ".join(problems), how="E2 return state over a short symbolic list of exposed attributes")
+        chk.floor(rule + "-%s-rows" % fn, n, 4)
